@@ -2,7 +2,7 @@
    numpy use).  Finite statements decided by vm_compute.  `Print Assumptions` lists exactly the
    kernel primitives involved (PrimFloat / Uint63 operations and the types float, int); there is
    no axiom of ours.  The closed counterparts over Floats.SpecFloat are in Props/P_C10.v. *)
-From Coq Require Import ZArith List Bool Floats.
+From Coq Require Import ZArith List Bool PrimFloat.
 From Abm Require Import Base.Sx Grid.Mask Grid.MaskFloat Proofs.MaskFloat_proofs.
 Import ListNotations.
 Open Scope Z_scope.
